@@ -420,7 +420,84 @@ def atheris_stage(ctx):
         shutil.rmtree(work, ignore_errors=True)
 
 
+# ---------------------------------------------------------------------------------------------
+# histories: whatever happened before on the object, a delivered result is a validated answer to the request that gets it
+# ---------------------------------------------------------------------------------------------
+HIST_SPECS = {
+    "udp": [("read", 35100, 4), ("read", 36000, 45), ("write", 47510, -5), ("read", 35100, 5)],
+    "tcp": [("read", 35100, 4), ("read", 36000, 45), ("write", 47510, -5), ("read", 35100, 5)],
+    "aa55": [("aa55", "010600", "0186"), ("aa55", "010200", "0182"), ("aa55", "010900", "0189")],
+}
+
+
+def history_case(acc: Acc, case):
+    acc.case()
+    transport, keep = case["transport"], case["keep"]
+    framing = {"udp": "rtu", "tcp": "tcp", "aa55": "aa55"}[transport]
+    acc.nontrivial("history", transport, keep, repr(case["steps"]))
+    results, world, errors, protocol = netcase.run_sequence({"transport": transport, "keep": keep, "T": 1.0, "R": 2, "latency": 0, "steps": case["steps"]})
+    reqs = [st for st in case["steps"] if st["op"] == "request"]
+    fails = []
+    got = [r for r in results if r.kind != "closed"]
+    for st, ro in zip(reqs, got):
+        if ro.hang is not None or ro.kind.startswith("harness"):
+            fails.append(("C01|%s|history|hang" % framing, "%r %r" % (ro.hang, ro.exc), case))
+            break
+        if ro.kind == "ok":
+            spec = st["command"]
+            D = ro.result.raw_data
+            if spec[0] == "aa55":
+                why = rw.necessary_aa55(bytes.fromhex(spec[2]), D)
+            else:
+                why = necessary(framing, spec[0], 0xF7, spec[1], spec[2], D)
+            if why is not None:
+                fails.append(("C01|%s|history|delivered-invalid" % framing, "request %r (request %d of the history) was handed %s: %s" % (
+                    tuple(spec), reqs.index(st) + 1, D.hex()[:80], why), case))
+                break
+            if not any(d[3] == D for d in world.deliveries) and not any(a[3] + b[3] == D for a in world.deliveries for b in world.deliveries):
+                fails.append(("C01|%s|history|delivered-not-sent" % framing, "request %r was handed bytes the peer never sent" % (tuple(spec),), case))
+                break
+        elif ro.kind not in ("RequestRejectedException", "RequestFailedException", "MaxRetriesException"):
+            fails.append(("C01|%s|history|outcome|%s" % (framing, ro.kind), repr(ro.exc), case))
+            break
+    return fails
+
+
+def history_job(job):
+    transport, keep = job
+    acc = Acc()
+    specs = HIST_SPECS[transport]
+    lost = ["eof", 2] if transport == "tcp" else ["recverr", 2, "ECONNREFUSED"]
+    firsts = {"ok": {"script": [["answer", 2]]}, "ok-then-dropped": {"script": [["combo", [["answer", 1], (["eof", 5] if transport == "tcp" else ["recverr", 5, "ECONNREFUSED"])]]]},
+              "ok-late-dup": {"script": [["dup", 2, 20]]}, "rejected": {"script": [["exc", 2, 2]]}, "silent": {"script": []}}
+    seconds = {"ok": {"script": [["answer", 2]]}, "drop-ok": {"script": [["drop"], ["answer", 2]]}, "lost-ok": {"script": [lost, ["answer", 2]]},
+               "connect-fails-once": {"script": [["answer", 2]], "connect": ["refused" if transport == "tcp" else "unreachable"]},
+               "connect-fails-twice": {"script": [["answer", 2]], "connect": ["refused" if transport == "tcp" else "unreachable"] * 2},
+               "senderr-ok": {"script": [["senderr", "ECONNREFUSED"], ["answer", 2]]}, "frag-ok": {"script": [["frag", 9, 2, 5]]},
+               "garbage-ok": {"script": [["garbage", 2], ["answer", 2]]}}
+    for i, c1 in enumerate(specs):
+        for c2 in specs:
+            if c1 == c2:
+                continue
+            for f1, s1 in firsts.items():
+                for f2, s2 in seconds.items():
+                    for gap in (None, "idle", "close", "newloop"):
+                        steps = [dict(s1, op="request", command=list(c1))]
+                        if gap:
+                            steps.append({"op": gap})
+                        steps.append(dict(s2, op="request", command=list(c2)))
+                        steps.append({"op": "request", "script": [["answer", 1]], "command": list(specs[(i + 2) % len(specs)])})
+                        case = {"history": True, "transport": transport, "keep": keep, "steps": steps}
+                        for key, msg, c in history_case(acc, case):
+                            acc.fail(key, msg, c)
+    acc.sample(case)
+    return acc
+
+
 def run(ctx):
+    ctx.shard(history_job, [(t, k) for t in ("udp", "tcp", "aa55") for k in (False, True)],
+              "histories of 3 different requests on one protocol object (first: answered / dropped afterwards / rejected / silent; second: lost, "
+              "connect failures, fragments ...): every delivered result is a validated answer to ITS request")
     nidx = ctx.pick(12, 60)
     jobs = [(f, i) for i in range(nidx) for f in ("rtu", "tcp", "aa55")]
     ctx.shard(struct_job, jobs, "structured neighbourhood: all truncations, all single-bit flips, 256 substitutions per header position, foreign frames")
@@ -438,6 +515,10 @@ def run(ctx):
 
 
 def replay(ctx, case):
+    if case.get("history"):
+        for key, msg, c in history_case(ctx.acc, case):
+            ctx.acc.fail(key, msg, c)
+        return
     kind = tuple(case["kind"]) if isinstance(case["kind"], list) else case["kind"]
     if "keep" in case:
         for key, msg, c in e2e_case(ctx.acc, case):
